@@ -787,6 +787,70 @@ def builder_rules(ctx, f, spec):
     ctx.floor("CTX", "Context::new_dbus calls in the builder", n, 3)
 
 
+def builder_ctor_rules(ctx, f):
+    """LEN:ctor (added after seeded change C11): build_generic writes `unix_fds` only when the new body has file
+    descriptors, so a Builder must never start with a stale count. Every construction of `Builder` either takes a
+    freshly built header (Fields::new / Default) or clears `Fields.unix_fds` (stores None) before — unless
+    build_generic itself stores the field on every path (then any starting value is fine)."""
+    BUILDER = "zbus::message::builder::Builder"
+    bgs = [b for b in f.find(name="build_generic", adt=BUILDER)]
+    always = False
+    for bg in bgs:
+        ufw = fl.field_writes(bg, FIELDS, "unix_fds")
+        rets = [b for b in mir.exits(bg)]
+        if ufw:
+            blocks = {w[0] for w in ufw}
+            # every normal return is reachable only through a store of the field
+            always = all(e not in mir.reachable(bg, [0], avoid=blocks) for e in rets if _ok_return(bg, e))
+    n = 0
+    for b in f.all_bodies("zbus"):
+        if "#test" in b.crate:
+            continue
+        for bi, i, pl, rv, ln in mir.assignments(b):
+            if not (rv[0] == "agg" and rv[1] == "adt" and rv[2] == BUILDER):
+                continue
+            n += 1
+            where = "%s:%d" % (b.file, ln)
+            names = rv[5] or []
+            if "header" not in names:
+                ctx.ob("LEN", "ctor:%s:header-field" % b.root, False, "Builder no longer has a `header` field: rule needs review", where)
+                continue
+            h = rv[4][names.index("header")]
+            ok, why = always, "build_generic stores unix_fds on every path"
+            if not ok:
+                # (a) explicit reset to None of Fields.unix_fds dominating the construction
+                for w in fl.field_writes(b, FIELDS, "unix_fds"):
+                    wrv = w[3]
+                    if wrv[0] == "use":
+                        oo = mir.origin(b, wrv[1])
+                        if oo[0] == "rv":
+                            wrv = oo[1]
+                    none = wrv[0] == "agg" and wrv[1] == "adt" and (wrv[2] or "").endswith("option::Option") and wrv[3] == "None"
+                    if none and mir.dominates(b, (w[0], w[1]), (bi, i)):
+                        ok, why = True, "unix_fds is cleared before the Builder is made from an existing header"
+                # (b) the header is freshly built: Header::new(primary, fields) with fields from Fields::new()/default()
+                if not ok:
+                    o = mir.origin(b, h)
+                    if o[0] == "call" and o[1].is_("Header::<'m>::new", "new") and "Header" in o[1].callee and len(o[1].args) > 1:
+                        fo = mir.origin(b, o[1].args[1])
+                        if fo[0] == "call" and fo[1].callee.rsplit("::", 1)[-1] in ("new", "default") and "Fields" in fo[1].callee:
+                            ok, why = True, "header built from fresh Fields (no fd count)"
+                    elif o[0] in ("place", "ref") and o[1][0] == 1 and b.d.get("impl_trait") == "core::clone::Clone":
+                        ok, why = True, "derived Clone of an existing Builder"
+                if not ok and (b.d.get("macro") or "").find("Clone") >= 0:
+                    ok, why = True, "derived Clone of an existing Builder"
+            ctx.ob("LEN", "ctor:%s:no-stale-unix_fds" % b.root, ok,
+                   why if ok else "a Builder is made from an existing header without clearing Fields.unix_fds, and build_generic only stores the "
+                   "field when the new body has fds: a rebuilt message without fds keeps the old count in its header", where)
+    ctx.floor("LEN", "constructions of message::Builder", n, 2)
+
+
+def _ok_return(body, e):
+    """a return block that can follow a successful build (not the `?` error exits): reachable from an Ok aggregate"""
+    oks = {b for b, i, pl, rv, ln in mir.assignments(body) if rv[0] == "agg" and rv[1] == "adt" and rv[3] == "Ok"}
+    return any(e in mir.reachable(body, [o]) for o in oks)
+
+
 def parser_rules(ctx, f, spec):
     fr = ctx.one(f.find(name="from_raw_parts", adt="zbus::message::Message", trait=""), "Message::from_raw_parts")
     PHS, MIN = const_of(f, "PRIMARY_HEADER_SIZE"), const_of(f, "MIN_MESSAGE_SIZE")
@@ -1021,6 +1085,7 @@ def run(ctx):
     t_sig(ctx, f)
     q_fields(ctx, f)
     builder_rules(ctx, f, spec)
+    builder_ctor_rules(ctx, f)
     parser_rules(ctx, f, spec)
     endian_rules(ctx, f, spec)
     layout_rules(ctx, f, spec)
